@@ -147,10 +147,14 @@ TNext == \/ TReset \/ TStart \/ TRecMain \/ TRecOld \/ TRead \/ TCloseRecovery
 
 TSpec == TInit /\ [][TNext]_tvars
 
-\* progress register: longest matched prefix (workers = 1)
-Track == TLCSet(42, IF l > TLCGet(42) THEN l ELSE TLCGet(42))
+\* progress register: longest matched prefix (workers = 1); register 43 keeps what the specification's process
+\* held in the deepest state reached (diagnostics for the report, not part of the verdict)
+ASSUME TLCSet(43, [held |-> {}, budget |-> 0, pc |-> "none", rec |-> {}])
+Track == IF l > TLCGet(42)
+           THEN TLCSet(42, l) /\ TLCSet(43, [held |-> have \cup pending, budget |-> env.budget, pc |-> pc, rec |-> rec])
+           ELSE TRUE
 Accepted == IF TLCGet(42) = Len(TraceLog) + 1 THEN TRUE
-            ELSE PrintT(<<"REJECTED_AT", TLCGet(42)>>) /\ FALSE
+            ELSE PrintT(<<"REJECTED_AT", TLCGet(42), TLCGet(43)>>) /\ FALSE
 
 \* the clauses of C17, evaluated in every state of every recorded history
 On == env.budget > 0
